@@ -89,6 +89,11 @@ func (Prop) Gen(r *core.Rand, tier string) interface{} {
 	}
 	for t := 0; t < g; t++ {
 		var prog []Op
+		if r.Chance(60) {
+			// most programs first store rows of their own, so that the reads, preloads,
+			// updates and association calls that follow have something to work on
+			prog = append(prog, Op{Kind: []string{"create", "create_full"}[r.Intn(2)], J: r.Intn(2)})
+		}
 		n := 1 + r.Intn(maxOps)
 		for i := 0; i < n; i++ {
 			prog = append(prog, Op{Kind: r.Pick(palette), J: r.Intn(3), X: r.Intn(50)})
